@@ -47,6 +47,7 @@ struct Node { var f[3]; int64_t canary; int64_t oid; };
 #define CANARY 0x5AFEC0DE5AFEC0DELL
 static void Node_Del(var self);
 static void Node_Assign(var self, var obj);
+static int g_dtor_alloc;
 static var Node_T = Cello(Node, Instance(New, NULL, Node_Del), Instance(Assign, Node_Assign));
 
 #define MAXOBJ   (1 << 18)
@@ -98,6 +99,8 @@ static int g_focus;
  * object owned through a Box is finalised exactly once") */
 #define LV(oid, cls6, ...) do { int o__ = (oid); int box__ = o__ >= 0 && (O[o__].kind == HK_BOX || (O[o__].owner >= 0 && O[O[o__].owner].kind == HK_BOX)); \
   if (g_focus == 5 && box__) { char c5__[128]; snprintf(c5__, sizeof c5__, "C05:box%s", (cls6) + 3); viol("C05", c5__, __VA_ARGS__); } \
+  if (g_focus == 19) { char c19__[128]; snprintf(c19__, sizeof c19__, "C19:heap-object%s", (cls6) + 3); viol("C19", c19__, __VA_ARGS__); } \
+  if (g_focus == 12) { char c12__[128]; snprintf(c12__, sizeof c12__, "C12:after-failed-call%s", (cls6) + 3); viol("C12", c12__, __VA_ARGS__); } \
   viol("C06", cls6, __VA_ARGS__); } while (0)
 
 static void on_free_hook(void* p, size_t size, int tag) {
@@ -112,14 +115,24 @@ static void on_free_hook(void* p, size_t size, int tag) {
     LV(oid, "C06:released-without-finalisation", "Node #%d released but its destructor never ran", oid);
   o->freed = 1;
   if (o->kind == HK_JUNK || !o->alive || !o->reach) g_collections_seen++;
+  /* an owner (Box, Range, Slice) that goes takes what it owns with it: its destructor deletes the owned object, whatever that
+   * object's own class is and whether or not the sweep in progress had collected it as well */
+  if ((o->kind == HK_BOX || o->kind == HK_RANGE || o->kind == HK_SLICE) && o->alive)
+    for (int i = 0; i < g_nobj; i++) if (O[i].owner == oid && O[i].alive) { O[i].alive = 0; stat_add("heap.owned_dies_with_swept_owner", 1); }
 }
 
+static int new_obj(var p, int kind, int cls);
 static void Node_Del(var self) {
   struct Node* n = self;
   int oid = (int)n->oid;
   if (oid < 0 || oid >= g_nobj || O[oid].ptr != self) HV("C06", "C06:finalised-garbage", "Node destructor ran on bytes that are not a ledger object");
   if (O[oid].finalised) LV(oid, "C06:finalised-twice", "Node #%d finalised twice", oid);
   O[oid].finalised = 1;
+  /* destructors that allocate: registrations (and possibly threshold crossings) in the middle of a sweep / a del / a teardown */
+  if (g_dtor_alloc && !g_stopped && !g_torn_down) {
+    for (int i = 0; i < g_dtor_alloc; i++) { var j = new(Int, $I(i)); new_obj(j, HK_JUNK, CL_MANAGED); }
+    stat_add("heap.destructor_allocations", g_dtor_alloc);
+  }
 }
 
 static int new_obj(var p, int kind, int cls) {
@@ -471,8 +484,12 @@ static void op_newbox(const Op* op) {
   int depth = 1 + sel;
   if (cls == CL_RAW) cls = g_stopped ? CL_UNREG : CL_MANAGED;
   int inner_cls = g_stopped ? CL_UNREG : CL_MANAGED;
-  struct Node* n = new_with(Node_T, tuple());
-  int noid = new_obj(n, HK_NODE, inner_cls);
+  /* sometimes the owned Node is itself a root: never collected, so when its owner is swept the owner's destructor deletes an
+   * object that is registered and not pending - a registry removal in the middle of a sweep */
+  int inner_root = !g_stopped && ((op->a[1] / 4) % 3 == 0);
+  struct Node* n = inner_root ? new_root_with(Node_T, tuple()) : new_with(Node_T, tuple());
+  int noid = new_obj(n, HK_NODE, inner_root ? CL_ROOT : inner_cls);
+  if (inner_root) stat_add("heap.box_owns_root", 1);
   n->canary = CANARY; n->oid = noid;
   slot_store(s, noid);                 /* keep it reachable while the owner is built */
   int owned = noid;
@@ -596,13 +613,17 @@ static void op_unlink(const Op* op) {
   stat_add("heap.unlink_container", 1);
 }
 
+static int named_by_live_tuple(int oid) {
+  for (int i = 0; i < g_nobj; i++) if (O[i].alive && !O[i].freed && O[i].kind == HK_TUP) { CModel* m = &CM[O[i].cidx]; for (int k = 0; k < m->n; k++) if (m->tgt[k] == oid) return 1; }
+  return 0;
+}
 static void op_del(const Op* op) {
   int oid = pick_obj(op->a[0], 0); if (oid < 0) return;
   Obj* o = &O[oid];
   var p = o->ptr; int cls = o->cls;
   /* a Tuple's items are the program's own direct pointers (traced precisely, not conservatively):
    * deleting an object a live Tuple still names would be the program's use-after-free, not the collector's */
-  for (int i = 0; i < g_nobj; i++) if (O[i].alive && O[i].kind == HK_TUP) { CModel* m = &CM[O[i].cidx]; for (int k = 0; k < m->n; k++) if (m->tgt[k] == oid) return; }
+  if (named_by_live_tuple(oid)) return;
   /* the harness view first: nothing may refer to the object any more */
   kill_obj(oid);
   switch (cls) { case CL_ROOT: del_root(p); break; case CL_RAW: del_raw(p); break; default: del(p); break; }
@@ -736,6 +757,7 @@ static void heap_execute(const Plan* p) {
   g_avoid = (int)plan_env(p, "avoid_kf", 0);
   int focus = (int)plan_env(p, "focus", 1);
   g_focus = focus;
+  g_dtor_alloc = (int)plan_env(p, "dtor.alloc", 0);
   arena_on_free = on_free_hook;
   static const char* tlskeys[NTLS] = { "tls0", "tls1", "tls2", "tls3" };
   for (int i = 0; i < p->nops; i++) {
@@ -743,7 +765,7 @@ static void heap_execute(const Plan* p) {
     g_opidx = i;
     /* a crash / uncaught exception inside the engine counts against the property whose check is running: C01, C06 and C17
      * all require collections and deletions to run to completion */
-    const char* prop = focus == 6 ? "C06" : focus == 5 ? "C05" : focus == 17 ? "C17" : focus == 19 ? "C19" :
+    const char* prop = focus == 6 ? "C06" : focus == 5 ? "C05" : focus == 17 ? "C17" : focus == 19 ? "C19" : focus == 12 ? "C12" :
                        (op->code == H_DEL || op->code == H_STOP || op->code == H_START) ? "C06" : "C01";
     progress(i, prop, OPS[op->code].name);
     ev("op %d %s", i, OPS[op->code].name);
@@ -781,9 +803,10 @@ static void heap_execute(const Plan* p) {
     ev("n=%d live=%ld", g_nobj, arena_live_count());
   }
   /* teardown: objects allocated while the collector was stopped are the program's to delete */
-  progress(p->nops, focus == 17 ? "C17" : focus == 1 ? "C01" : focus == 5 ? "C05" : "C06", "teardown");
+  progress(p->nops, focus == 17 ? "C17" : focus == 1 ? "C01" : focus == 5 ? "C05" : focus == 19 ? "C19" : focus == 12 ? "C12" : "C06", "teardown");
   if (g_stopped) { start(current(GC)); g_stopped = 0; }
-  for (int i = 0; i < g_nobj; i++) if (O[i].alive && O[i].cls == CL_UNREG && O[i].owner < 0 && O[i].kind != HK_JUNK) { var q = O[i].ptr; kill_obj(i); del(q); }
+  /* (not those a live Tuple still names: a destructor may allocate, a collection would then trace the Tuple's items) */
+  for (int i = 0; i < g_nobj; i++) if (O[i].alive && O[i].cls == CL_UNREG && O[i].owner < 0 && O[i].kind != HK_JUNK && !named_by_live_tuple(i)) { var q = O[i].ptr; kill_obj(i); del(q); }
   for (int i = 0; i < NTLS; i++) if (g_tls_oid[i] >= 0) { rem(current(Thread), $S((char*)tlskeys[i])); g_tls_oid[i] = -1; }
   for (int i = 0; i < NSLOT; i++) slot_store(i, -1);
   sim_scrub_stack();
@@ -798,7 +821,7 @@ static void heap_execute(const Plan* p) {
 static void heap_final_checks(const Plan* p) {
   long swept = -g_freed_before_teardown; for (int i = 0; i < g_nobj; i++) swept += O[i].freed;
   stat_add("heap.freed_at_teardown", swept);
-  progress(p->nops, g_focus == 17 ? "C17" : g_focus == 1 ? "C01" : g_focus == 5 ? "C05" : "C06", "teardown-check");
+  progress(p->nops, g_focus == 17 ? "C17" : g_focus == 1 ? "C01" : g_focus == 5 ? "C05" : g_focus == 19 ? "C19" : g_focus == 12 ? "C12" : "C06", "teardown-check");
   for (int i = 0; i < g_nobj; i++) {
     Obj* o = &O[i];
     char cls[128];
@@ -830,6 +853,8 @@ static void heap_nontrivial(void) {
   long coll = stat_get("heap.collections_seen");
   if (g_focus == 6 || g_focus == 5) f = coll > 0 && (stat_get("heap.new_box") > 0 || stat_get("heap.stop") > 0) && stat_get("heap.freed_at_teardown") > 0;
   else if (g_focus == 17) f = coll > 0 && stat_get("reg.grow") >= 3 && stat_get("reg.shrink") >= 1;
+  else if (g_focus == 12) f = coll > 0 && stat_get("heap.failed_constructor") > 0;
+  else if (g_focus == 19) f = coll > 0;
   else if (coll > 0 && stat_get("heap.checks_with_nonstack_reachable") > 0) f = 1;
   if (f) mark_nontrivial();
 }
@@ -865,14 +890,16 @@ static void heap_generate_random(Plan* p, Rng* r, int maxops) {
   int nops = rng_chance(r, 6, 10) ? 10 + (int)rng_below(r, 50) : 60 + (int)rng_below(r, 240);
   if (maxops) nops = 4 + (int)rng_below(r, (uint32_t)maxops - 3);
   int stopped = 0;
-  int allow_stop = (focus == 6 || focus == 5 || focus == 17 || focus == 0) && !(plan_env(p, "avoid_kf", 0) & 8);
+  int allow_stop = (focus == 6 || focus == 5 || focus == 17 || focus == 0 || focus == 19 || focus == 12) && !(plan_env(p, "avoid_kf", 0) & 8);
   int badpct = focus == 19 ? 12 : 0;
+  if (plan_env(p, "dtor.alloc", -1) < 0 && focus != 19) plan_env_set(p, "dtor.alloc", rng_chance(r, 1, 4) ? 1 + (int)rng_below(r, 3) : 0);
   for (int i = 0; i < nops && p->nops < MAXOPS - 4; i++) {
     uint32_t d = rng_below(r, 100);
     int fault = rng_chance(r, 1, 10);
     if (!fault && rng_chance(r, 1, 8)) fault = 2 + (int)rng_below(r, 6);   /* the next collection lands on this operation's n-th allocation */
     int64_t a = rng_below(r, 1000), b = rng_below(r, 1000), c = rng_below(r, 1000);
     if ((int)d < badpct) { plan_add(p, H_BADFREE, 0, 0, rng_below(r, 12), a, 0, 0, 0, 0); continue; }
+    if (focus == 12 && d < 10) { plan_add(p, H_BADNEW, 0, 0, a, 0, 0, 0, 0, 0); continue; }
     d = rng_below(r, 100);
     if (d < 14) plan_add(p, H_NEWNODE, 0, fault, a, b, 0, 0, 0, 0);
     else if (d < 19) plan_add(p, H_NEWREF, 0, fault, a, b, c, 0, 0, 0);
@@ -888,7 +915,7 @@ static void heap_generate_random(Plan* p, Rng* r, int maxops) {
     else if (d < 93) plan_add(p, H_BURST, 0, 0, a, 0, 0, 0, 0, 0);
     else if (d < 95) { if (allow_stop) { plan_add(p, stopped ? H_START : H_STOP, 0, 0, 0, 0, 0, 0, 0, 0); stopped = !stopped; } else plan_add(p, H_BURST, 0, 0, a, 0, 0, 0, 0, 0); }
     else if (d < 97) plan_add(p, H_COPY, 0, fault ? fault : (rng_chance(r, 1, 2) ? 2 + (int)rng_below(r, 6) : 0), a, b, 0, 0, 0, 0);
-    else if (d < 98) plan_add(p, (focus == 6 || focus == 5) ? H_BADNEW : H_REGHOLD, 0, 0, a, 0, 0, 0, 0, 0);
+    else if (d < 98) plan_add(p, (focus == 6 || focus == 5 || focus == 12) ? H_BADNEW : H_REGHOLD, 0, 0, a, 0, 0, 0, 0, 0);
     else { int64_t n = rng_chance(r, 1, 4) ? 1000 + rng_below(r, 9000) : 5 + rng_below(r, 300); if (focus == 17 || maxops) n = 5 + rng_below(r, 200); plan_add(p, H_CHAIN, 0, 0, a, n, 0, 0, 0, 0); }
   }
 }
@@ -909,7 +936,7 @@ static void heap_execute_entry(const Plan* p) {
   for (int i = 0; i < g_nobj; i++) if (O[i].alive && O[i].cls == CL_ROOT) {
     /* a root that owns managed objects (Box, Range, Slice) is left alone: the teardown has already swept what it owned, which is
      * how the shipped design treats the referents of surviving roots, and deleting it now would be the program's double delete */
-    if (O[i].kind == HK_BOX || O[i].kind == HK_RANGE || O[i].kind == HK_SLICE) continue;
+    if (O[i].kind == HK_BOX || O[i].kind == HK_RANGE || O[i].kind == HK_SLICE || O[i].owner >= 0) continue;
     var q = O[i].ptr;
     if (O[i].freed || O[i].finalised) LV(i, "C06:root-released-by-teardown", "root object #%d (%s) was released by its thread's teardown although nobody called del_root", i, HKNAME[O[i].kind]);
     kill_obj(i);
